@@ -4,7 +4,8 @@ import Obao.Proofs.SealCoreInv
 `Obao/Model/SealKeys.lean` (tied to `internal/vault/barrier` and `internal/vault` by the streams `sealkeys` and
 `sealcore`).  A history is any list of (barrier, operation) pairs where barrier `false` is the active node and
 `true` a standby over the same store; `ValidHist` only demands that the standby never persists a keyring
-(`Rotate` / `RotateRootKey` are the active node's).  `supplied hist` are the root keys the operator passed in. -/
+(`Rotate` / `RotateRootKey` / the bookkeeping tick / `SetRotationConfig` are the active node's; the harness-only
+counter poke `heat` is not an operation).  `supplied hist` are the root keys the operator passed in. -/
 namespace C10
 open Obao.SealKeys
 
@@ -29,6 +30,9 @@ theorem sealed_serves_nothing (ns : Bool) (p : Phys) (b : Barrier) (fk : Key) (o
   | unsealB _ => simp [serves] at hop
   | sealB => simp [serves] at hop
   | reloadkr => simp [serves] at hop
+  | tick => simp [serves] at hop
+  | setrot _ => simp [serves] at hop
+  | heat => simp [serves] at hop
   | _ => simp [step, hs]
 
 /-- ... and holds no key material: after EVERY history, on both barriers, sealed ⇔ no keyring in memory. -/
@@ -113,6 +117,33 @@ example :
       = .okPayload (.val (.bytes "03")) ∧
     (step false w.phys (step false w.phys w.a (termKeyN 9) (.unsealB r2)).bar (termKeyN 9) (.get (.data "d/y"))).res
       = .absent ∧ w.shadow.lookup "d/x" = some "01" := by decide
+
+/-- **The bookkeeping tick does not touch the key hierarchy in memory**: `CheckBarrierAutoRotate` (and the
+`persistEncryptions` it runs) leaves the keyring and the seal state of the barrier exactly as they were, for every
+store and every barrier state; what it may do is re-persist the SAME keyring (covered, like every other operation,
+by `rotation_history_readable`: `tick` and `setrot` are ordinary steps of a valid history on the active node). -/
+theorem tick_keeps_memory (ns : Bool) (p : Phys) (b : Barrier) (fk : Key) :
+    (step ns p b fk .tick).bar.keyring = b.keyring ∧ (step ns p b fk .tick).bar.sealed = b.sealed := by
+  simp only [step]
+  repeat' split
+  all_goals exact ⟨rfl, rfl⟩
+
+/-- non-vacuity: ticks after traffic re-persist the keyring (3 writes), a tick without traffic writes nothing, a
+rotation-configuration change persists; the history is valid and everything is read back after a re-unseal -/
+example :
+    let r1 : Key := ⟨0, 1, 32⟩
+    let hist : List (Bool × Op) := [(false, .init r1 none), (false, .unsealB r1), (false, .put "d/x" "01"), (false, .tick),
+      (false, .tick), (false, .setrot 2), (false, .rotate), (false, .put "d/y" "02"), (false, .tick), (false, .sealB)]
+    let w := ({} : World).run hist
+    ValidHist hist ∧
+    ((({} : World).run (hist.take 3)).exec false .tick).1.writes.length = 3 ∧
+    ((({} : World).run (hist.take 4)).exec false .tick).1.writes.length = 0 ∧
+    (step false w.phys w.a (termKeyN 9) (.unsealB r1)).res = .ok ∧
+    (step false w.phys (step false w.phys w.a (termKeyN 9) (.unsealB r1)).bar (termKeyN 9) (.get (.data "d/x"))).res
+      = .okPayload (.val (.bytes "01")) ∧
+    (step false w.phys (step false w.phys w.a (termKeyN 9) (.unsealB r1)).bar (termKeyN 9) .keyinfo).res = .okTerm 2 := by
+  refine ⟨by simp [ValidHist, ValidStep], ?_⟩
+  decide
 
 /-- **New writes use the newest key term.**  After any history, a successful put on the active node stores a
 record whose header term is the active term of the STORED keyring, encrypted under that term's key, and no stored
@@ -235,7 +266,8 @@ theorem rotate_root_crash_follow_partial (ns : Bool) (hist : List (Bool × Op)) 
     let p' := applyWrites w.phys ((step w.ns w.phys w.a (termKeyN w.nextT) (.rotroot nk)).writes.take k)
     w.phys.get .keyring ≠ none →
     ∃ rk KR, rk ∈ supplied hist ++ [nk] ∧ PInv p' w.shadow rk KR ∧
-      ∀ n (b : Barrier), b.sealed = false → b.keyring = some KR → follow p' (n + 1) b = (b, [.okUp false 0, .ok, .ok]) := by
+      ∀ n (b : Barrier), b.sealed = false → b.keyring = some KR →
+        (follow p' (n + 1) b).2 = [.okUp false 0, .ok, .ok] ∧ (follow p' (n + 1) b).1.keyring = some KR := by
   intro w p' hinit
   have hinv : Inv ([] ++ supplied hist) w := inv_run (inv_init ns) hist hv
   clear_value w
@@ -251,7 +283,8 @@ theorem rotate_root_crash_follow_partial (ns : Bool) (hist : List (Bool × Op)) 
 /-- **A standby following the upgrade path converges.**  After any history, a standby that is unsealed and finds
 every upgrade entry between its own active term and the stored one ends `performKeyUpgrades` (CheckUpgrade until
 none, ReloadRootKey, ReloadKeyring) without error holding exactly the stored keyring — which is the active node's
-keyring whenever the active node is unsealed with the stored root key. -/
+keyring whenever the active node is unsealed with the stored root key and rotation configuration (a pending
+in-memory `SetRootKey`, or a `SetRotationConfig` whose persist failed, are the only ways to differ). -/
 theorem standby_upgrade_converges (ns : Bool) (hist : List (Bool × Op)) (hv : ValidHist hist) (kr : Keyring) :
     let w := ({ ns := ns } : World).run hist
     w.b.keyring = some kr →
@@ -259,7 +292,8 @@ theorem standby_upgrade_converges (ns : Bool) (hist : List (Bool × Op)) (hv : V
     (∀ t, kr.active ≤ t → t < KR.active → w.phys.get (.upgrade t) ≠ none) →
     ∀ n, KR.active - kr.active ≤ n →
       (follow w.phys (n + 1) w.b).2 = [.okUp false 0, .ok, .ok] ∧ (follow w.phys (n + 1) w.b).1.keyring = some KR ∧
-      (∀ ka, w.a.keyring = some ka → ka.root = rk → (follow w.phys (n + 1) w.b).1.keyring = w.a.keyring) := by
+      (∀ ka, w.a.keyring = some ka → ka.root = rk → ka.rot = KR.rot →
+        (follow w.phys (n + 1) w.b).1.keyring = w.a.keyring) := by
   intro w hb rk KR hkr hup n hn
   have hinv : Inv ([] ++ supplied hist) w := inv_run (inv_init ns) hist hv
   clear_value w
@@ -270,7 +304,7 @@ theorem standby_upgrade_converges (ns : Bool) (hist : List (Bool × Op)) (hv : V
     have hs : w.b.sealed = false := keyring_unsealed sb hb
     obtain ⟨g1, g2, _⟩ := standby_walk h hc hrk w.b kr hs hb sb subb hup n hn
     refine ⟨g1, g2, ?_⟩
-    intro ka hka hroot
+    intro ka hka hroot hrot
     rw [g2, hka]
     obtain ⟨e1, e2⟩ := sya ka hka
     have := h.root
